@@ -9,7 +9,7 @@ from vlib import factbase as fb
 from vlib import q
 from . import arms as A
 from . import c01
-from .common import ctx, loc, self_field
+from .common import pname, ctx, loc, self_field
 
 
 def _kind_of_name(s):
@@ -217,7 +217,7 @@ def rule_r2(facts, rep, rid="C07-R2"):
     for x in fb.walk(f.body):
         if x.get("k") == "mcall" and x["name"] == "with":
             ps = c.parents(x)
-            if not any(p.get("k") == "match" and p.get("src") == "Normal" for p in ps):
+            if not any(p in ms for p in ps):
                 sib.append(x)
     key = f.def_ + "|sibling-level"
     n += 1
@@ -255,7 +255,7 @@ def rule_r2(facts, rep, rid="C07-R2"):
         rep.ok(rid, key, "Projector{header_level: 0, ..}", p.loc)
     else:
         rep.violation(rid, key, "projection does not start at heading level 0 (first heading would not be level 1)", p.loc)
-    okp = any(fl["name"] == "parent" and ("param", "parent") in ctx(p).vprov(fl["e"]) for s in st for fl in s["fields"])
+    okp = any(fl["name"] == "parent" and ("param", pname(p, 1)) in ctx(p).vprov(fl["e"]) for s in st for fl in s["fields"])
     key = p.def_ + "|parent-from-argument"
     if okp:
         rep.ok(rid, key, "parent copied from the argument", p.loc, nontrivial=False)
@@ -265,7 +265,7 @@ def rule_r2(facts, rep, rid="C07-R2"):
     st = [x for x in fb.walk(w.body) if x.get("k") == "struct" and fb.norm(x.get("def", "")).endswith("Projector")]
     key = w.def_ + "|copies-argument"
     n += 1
-    okw = any(fl["name"] == "header_level" and ("param", "header_level") in ctx(w).vprov(fl["e"]) and not any(a[0] == "binary" for a in ctx(w).vprov(fl["e"])) for s in st for fl in s["fields"])
+    okw = any(fl["name"] == "header_level" and ("param", pname(w, 1)) in ctx(w).vprov(fl["e"]) and not any(a[0] == "binary" for a in ctx(w).vprov(fl["e"])) for s in st for fl in s["fields"])
     if okw:
         rep.ok(rid, key, "with(l) sets header_level = l", w.loc)
     else:
